@@ -13,7 +13,7 @@ open ZnVerif.Model ZnVerif.Proofs.Calls
 variable {ν : Type} [NumOps ν]
 
 section mutualBlock
-variable {R : VM ν → VM ν → Prop} [ScopePrims R]
+variable {R : VM ν → VM ν → Prop} [ScopePrims0 R]
 
 /-- every function of the evaluator, at every fuel, relates start and end state by `R` on every outcome -/
 theorem allPres : ∀ n : Nat, AllPres R (ν := ν) n
